@@ -1,0 +1,519 @@
+//! Verification seams, compiled only with `--cfg metrics_verif`.
+//!
+//! Nothing in here carries policy: every shim performs the real operation on the real std type
+//! after announcing it to an installed [`Hooks`] object. Without an installed object the shims
+//! behave exactly like the types they wrap.
+#![allow(missing_docs, clippy::all)]
+
+use std::panic::Location;
+use std::sync::OnceLock;
+use std::time::Duration;
+
+/// A place in the source where a shimmed operation happens.
+pub type Site = &'static Location<'static>;
+
+/// Callbacks a simulator installs to observe and schedule shimmed operations.
+pub trait Hooks: Send + Sync {
+    /// Called before every shimmed atomic operation and lock acquisition.
+    fn sync_point(&self, _op: &'static str, _site: Site) {}
+    /// Called for every iteration of a busy-wait (lock not available, backoff snooze).
+    fn spin(&self, _op: &'static str, _site: Site) {
+        std::thread::yield_now();
+    }
+    /// Reach marker.
+    fn probe(&self, _name: &'static str) {}
+    /// Spawns a thread; returns the closure back when the simulator does not want to own it.
+    fn spawn(
+        &self,
+        _name: &str,
+        f: Box<dyn FnOnce() + Send + 'static>,
+    ) -> Option<Box<dyn FnOnce() + Send + 'static>> {
+        Some(f)
+    }
+    /// Sleeps on the simulated clock; `false` when the caller should really sleep.
+    fn sleep(&self, _dur: Duration) -> bool {
+        false
+    }
+    /// Simulated monotonic clock in nanoseconds, if a simulation owns the calling thread.
+    fn now_nanos(&self) -> Option<u64> {
+        None
+    }
+    /// Seed for code-under-test random number generators created on the calling thread.
+    fn rng_seed(&self) -> Option<u64> {
+        None
+    }
+    /// Access to a simulator-specific extension object (network backends and the like).
+    fn ext(&self, _name: &'static str) -> Option<&(dyn std::any::Any + Send + Sync)> {
+        None
+    }
+}
+
+static HOOKS: OnceLock<Box<dyn Hooks>> = OnceLock::new();
+
+/// Installs the process-wide hooks object. Returns `false` when one was installed already.
+pub fn install(hooks: Box<dyn Hooks>) -> bool {
+    HOOKS.set(hooks).is_ok()
+}
+
+#[inline]
+pub fn hooks() -> Option<&'static dyn Hooks> {
+    HOOKS.get().map(|b| &**b)
+}
+
+#[inline]
+#[track_caller]
+pub fn sync_point(op: &'static str) {
+    if let Some(h) = hooks() {
+        h.sync_point(op, Location::caller());
+    }
+}
+
+#[inline]
+pub fn sync_point_at(op: &'static str, site: Site) {
+    if let Some(h) = hooks() {
+        h.sync_point(op, site);
+    }
+}
+
+#[inline]
+#[track_caller]
+pub fn spin(op: &'static str) {
+    match hooks() {
+        Some(h) => h.spin(op, Location::caller()),
+        None => std::thread::yield_now(),
+    }
+}
+
+#[inline]
+pub fn spin_at(op: &'static str, site: Site) {
+    match hooks() {
+        Some(h) => h.spin(op, site),
+        None => std::thread::yield_now(),
+    }
+}
+
+#[inline]
+pub fn probe(name: &'static str) {
+    if let Some(h) = hooks() {
+        h.probe(name);
+    }
+}
+
+pub fn rng_seed() -> Option<u64> {
+    hooks().and_then(|h| h.rng_seed())
+}
+
+pub mod sync {
+    use super::{spin_at, sync_point_at};
+    use std::panic::Location;
+    use std::sync::{LockResult, MutexGuard, RwLockReadGuard, RwLockWriteGuard, TryLockError};
+
+    pub mod atomic {
+        use super::super::sync_point_at;
+        use std::panic::Location;
+        pub use std::sync::atomic::Ordering;
+
+        macro_rules! int_atomic {
+            ($name:ident, $std:ty, $prim:ty) => {
+                #[repr(transparent)]
+                #[derive(Default)]
+                pub struct $name($std);
+
+                impl std::fmt::Debug for $name {
+                    fn fmt(&self, f: &mut std::fmt::Formatter<'_>) -> std::fmt::Result {
+                        self.0.fmt(f)
+                    }
+                }
+
+                impl From<$prim> for $name {
+                    fn from(v: $prim) -> Self {
+                        Self::new(v)
+                    }
+                }
+
+                impl $name {
+                    pub const fn new(v: $prim) -> Self {
+                        Self(<$std>::new(v))
+                    }
+                    pub fn into_inner(self) -> $prim {
+                        self.0.into_inner()
+                    }
+                    pub fn get_mut(&mut self) -> &mut $prim {
+                        self.0.get_mut()
+                    }
+                    /// The wrapped std atomic, for uninstrumented access by a harness.
+                    pub fn raw(&self) -> &$std {
+                        &self.0
+                    }
+                    #[track_caller]
+                    pub fn load(&self, o: Ordering) -> $prim {
+                        let site = Location::caller();
+                        sync_point_at("atomic.load", site);
+                        let r = self.0.load(o);
+                        sync_point_at("atomic.load.done", site);
+                        r
+                    }
+                    #[track_caller]
+                    pub fn store(&self, v: $prim, o: Ordering) {
+                        let site = Location::caller();
+                        sync_point_at("atomic.store", site);
+                        let r = self.0.store(v, o);
+                        sync_point_at("atomic.store.done", site);
+                        r
+                    }
+                    #[track_caller]
+                    pub fn swap(&self, v: $prim, o: Ordering) -> $prim {
+                        let site = Location::caller();
+                        sync_point_at("atomic.swap", site);
+                        let r = self.0.swap(v, o);
+                        sync_point_at("atomic.swap.done", site);
+                        r
+                    }
+                    #[track_caller]
+                    pub fn fetch_add(&self, v: $prim, o: Ordering) -> $prim {
+                        let site = Location::caller();
+                        sync_point_at("atomic.fetch_add", site);
+                        let r = self.0.fetch_add(v, o);
+                        sync_point_at("atomic.fetch_add.done", site);
+                        r
+                    }
+                    #[track_caller]
+                    pub fn fetch_sub(&self, v: $prim, o: Ordering) -> $prim {
+                        let site = Location::caller();
+                        sync_point_at("atomic.fetch_sub", site);
+                        let r = self.0.fetch_sub(v, o);
+                        sync_point_at("atomic.fetch_sub.done", site);
+                        r
+                    }
+                    #[track_caller]
+                    pub fn fetch_or(&self, v: $prim, o: Ordering) -> $prim {
+                        let site = Location::caller();
+                        sync_point_at("atomic.fetch_or", site);
+                        let r = self.0.fetch_or(v, o);
+                        sync_point_at("atomic.fetch_or.done", site);
+                        r
+                    }
+                    #[track_caller]
+                    pub fn fetch_and(&self, v: $prim, o: Ordering) -> $prim {
+                        let site = Location::caller();
+                        sync_point_at("atomic.fetch_and", site);
+                        let r = self.0.fetch_and(v, o);
+                        sync_point_at("atomic.fetch_and.done", site);
+                        r
+                    }
+                    #[track_caller]
+                    pub fn fetch_max(&self, v: $prim, o: Ordering) -> $prim {
+                        let site = Location::caller();
+                        sync_point_at("atomic.fetch_max", site);
+                        let r = self.0.fetch_max(v, o);
+                        sync_point_at("atomic.fetch_max.done", site);
+                        r
+                    }
+                    #[track_caller]
+                    pub fn fetch_min(&self, v: $prim, o: Ordering) -> $prim {
+                        let site = Location::caller();
+                        sync_point_at("atomic.fetch_min", site);
+                        let r = self.0.fetch_min(v, o);
+                        sync_point_at("atomic.fetch_min.done", site);
+                        r
+                    }
+                    #[track_caller]
+                    pub fn compare_exchange(
+                        &self,
+                        c: $prim,
+                        n: $prim,
+                        s: Ordering,
+                        f: Ordering,
+                    ) -> Result<$prim, $prim> {
+                        let site = Location::caller();
+                        sync_point_at("atomic.compare_exchange", site);
+                        let r = self.0.compare_exchange(c, n, s, f);
+                        sync_point_at("atomic.compare_exchange.done", site);
+                        r
+                    }
+                    #[track_caller]
+                    pub fn compare_exchange_weak(
+                        &self,
+                        c: $prim,
+                        n: $prim,
+                        s: Ordering,
+                        f: Ordering,
+                    ) -> Result<$prim, $prim> {
+                        let site = Location::caller();
+                        sync_point_at("atomic.compare_exchange_weak", site);
+                        let r = self.0.compare_exchange_weak(c, n, s, f);
+                        sync_point_at("atomic.compare_exchange_weak.done", site);
+                        r
+                    }
+                    /// Same contract as std: a load followed by a compare-exchange loop, with
+                    /// each of the two steps announced separately.
+                    #[track_caller]
+                    pub fn fetch_update<F>(
+                        &self,
+                        set_order: Ordering,
+                        fetch_order: Ordering,
+                        mut f: F,
+                    ) -> Result<$prim, $prim>
+                    where
+                        F: FnMut($prim) -> Option<$prim>,
+                    {
+                        let site = Location::caller();
+                        sync_point_at("atomic.fetch_update.load", site);
+                        let mut prev = self.0.load(fetch_order);
+                        while let Some(next) = f(prev) {
+                            sync_point_at("atomic.fetch_update.cas", site);
+                            match self.0.compare_exchange_weak(prev, next, set_order, fetch_order) {
+                                x @ Ok(_) => {
+                                    sync_point_at("atomic.fetch_update.done", site);
+                                    return x;
+                                }
+                                Err(next_prev) => prev = next_prev,
+                            }
+                        }
+                        Err(prev)
+                    }
+                }
+            };
+        }
+
+        int_atomic!(AtomicU64, std::sync::atomic::AtomicU64, u64);
+        int_atomic!(AtomicUsize, std::sync::atomic::AtomicUsize, usize);
+
+        #[repr(transparent)]
+        #[derive(Default)]
+        pub struct AtomicBool(std::sync::atomic::AtomicBool);
+
+        impl std::fmt::Debug for AtomicBool {
+            fn fmt(&self, f: &mut std::fmt::Formatter<'_>) -> std::fmt::Result {
+                self.0.fmt(f)
+            }
+        }
+
+        impl AtomicBool {
+            pub const fn new(v: bool) -> Self {
+                Self(std::sync::atomic::AtomicBool::new(v))
+            }
+            pub fn into_inner(self) -> bool {
+                self.0.into_inner()
+            }
+            pub fn raw(&self) -> &std::sync::atomic::AtomicBool {
+                &self.0
+            }
+            #[track_caller]
+            pub fn load(&self, o: Ordering) -> bool {
+                let site = Location::caller();
+                sync_point_at("atomic.load", site);
+                let r = self.0.load(o);
+                sync_point_at("atomic.load.done", site);
+                r
+            }
+            #[track_caller]
+            pub fn store(&self, v: bool, o: Ordering) {
+                let site = Location::caller();
+                sync_point_at("atomic.store", site);
+                let r = self.0.store(v, o);
+                sync_point_at("atomic.store.done", site);
+                r
+            }
+            #[track_caller]
+            pub fn swap(&self, v: bool, o: Ordering) -> bool {
+                let site = Location::caller();
+                sync_point_at("atomic.swap", site);
+                let r = self.0.swap(v, o);
+                sync_point_at("atomic.swap.done", site);
+                r
+            }
+            #[track_caller]
+            pub fn compare_exchange(
+                &self,
+                c: bool,
+                n: bool,
+                s: Ordering,
+                f: Ordering,
+            ) -> Result<bool, bool> {
+                let site = Location::caller();
+                sync_point_at("atomic.compare_exchange", site);
+                let r = self.0.compare_exchange(c, n, s, f);
+                sync_point_at("atomic.compare_exchange.done", site);
+                r
+            }
+            #[track_caller]
+            pub fn fetch_or(&self, v: bool, o: Ordering) -> bool {
+                let site = Location::caller();
+                sync_point_at("atomic.fetch_or", site);
+                let r = self.0.fetch_or(v, o);
+                sync_point_at("atomic.fetch_or.done", site);
+                r
+            }
+            #[track_caller]
+            pub fn fetch_and(&self, v: bool, o: Ordering) -> bool {
+                let site = Location::caller();
+                sync_point_at("atomic.fetch_and", site);
+                let r = self.0.fetch_and(v, o);
+                sync_point_at("atomic.fetch_and.done", site);
+                r
+            }
+        }
+    }
+
+    /// `std::sync::Mutex` whose acquisition never blocks the OS thread: it announces a sync
+    /// point, then try-locks and reports a spin iteration until the lock is free.
+    #[derive(Default)]
+    pub struct Mutex<T: ?Sized>(std::sync::Mutex<T>);
+
+    impl<T: ?Sized + std::fmt::Debug> std::fmt::Debug for Mutex<T> {
+        fn fmt(&self, f: &mut std::fmt::Formatter<'_>) -> std::fmt::Result {
+            self.0.fmt(f)
+        }
+    }
+
+    impl<T> Mutex<T> {
+        pub const fn new(v: T) -> Self {
+            Self(std::sync::Mutex::new(v))
+        }
+        pub fn into_inner(self) -> LockResult<T> {
+            self.0.into_inner()
+        }
+    }
+
+    impl<T: ?Sized> Mutex<T> {
+        #[track_caller]
+        pub fn lock(&self) -> LockResult<MutexGuard<'_, T>> {
+            let site = Location::caller();
+            sync_point_at("mutex.lock", site);
+            loop {
+                match self.0.try_lock() {
+                    Ok(g) => {
+                        sync_point_at("mutex.lock.acquired", site);
+                        return Ok(g);
+                    }
+                    Err(TryLockError::Poisoned(p)) => return Err(p),
+                    Err(TryLockError::WouldBlock) => spin_at("mutex.lock.spin", site),
+                }
+            }
+        }
+        pub fn get_mut(&mut self) -> LockResult<&mut T> {
+            self.0.get_mut()
+        }
+    }
+
+    /// `std::sync::RwLock` with non-blocking, announced acquisition (see [`Mutex`]).
+    #[derive(Default)]
+    pub struct RwLock<T: ?Sized>(std::sync::RwLock<T>);
+
+    impl<T: ?Sized + std::fmt::Debug> std::fmt::Debug for RwLock<T> {
+        fn fmt(&self, f: &mut std::fmt::Formatter<'_>) -> std::fmt::Result {
+            self.0.fmt(f)
+        }
+    }
+
+    impl<T> RwLock<T> {
+        pub const fn new(v: T) -> Self {
+            Self(std::sync::RwLock::new(v))
+        }
+        pub fn into_inner(self) -> LockResult<T> {
+            self.0.into_inner()
+        }
+    }
+
+    impl<T: ?Sized> RwLock<T> {
+        #[track_caller]
+        pub fn read(&self) -> LockResult<RwLockReadGuard<'_, T>> {
+            let site = Location::caller();
+            sync_point_at("rwlock.read", site);
+            loop {
+                match self.0.try_read() {
+                    Ok(g) => {
+                        sync_point_at("rwlock.read.acquired", site);
+                        return Ok(g);
+                    }
+                    Err(TryLockError::Poisoned(p)) => return Err(p),
+                    Err(TryLockError::WouldBlock) => spin_at("rwlock.read.spin", site),
+                }
+            }
+        }
+        #[track_caller]
+        pub fn write(&self) -> LockResult<RwLockWriteGuard<'_, T>> {
+            let site = Location::caller();
+            sync_point_at("rwlock.write", site);
+            loop {
+                match self.0.try_write() {
+                    Ok(g) => {
+                        sync_point_at("rwlock.write.acquired", site);
+                        return Ok(g);
+                    }
+                    Err(TryLockError::Poisoned(p)) => return Err(p),
+                    Err(TryLockError::WouldBlock) => spin_at("rwlock.write.spin", site),
+                }
+            }
+        }
+        pub fn get_mut(&mut self) -> LockResult<&mut T> {
+            self.0.get_mut()
+        }
+    }
+}
+
+pub mod thread {
+    /// `std::thread::spawn` for detached background threads: the simulator may adopt the closure.
+    pub fn spawn_detached<F>(name: &str, f: F) -> std::io::Result<()>
+    where
+        F: FnOnce() + Send + 'static,
+    {
+        let f: Box<dyn FnOnce() + Send + 'static> = Box::new(f);
+        let f = match super::hooks() {
+            Some(h) => match h.spawn(name, f) {
+                None => return Ok(()),
+                Some(f) => f,
+            },
+            None => f,
+        };
+        std::thread::Builder::new().name(name.to_string()).spawn(f).map(|_| ())
+    }
+
+    pub fn sleep(dur: std::time::Duration) {
+        let handled = super::hooks().map(|h| h.sleep(dur)).unwrap_or(false);
+        if !handled {
+            std::thread::sleep(dur);
+        }
+    }
+}
+
+pub mod time {
+    use std::time::Duration;
+
+    /// Monotonic instant that reads the simulated clock on simulated threads.
+    #[derive(Clone, Copy, Debug, PartialEq, Eq, PartialOrd, Ord)]
+    pub enum Instant {
+        Real(std::time::Instant),
+        Sim(u64),
+    }
+
+    impl Instant {
+        pub fn now() -> Self {
+            match super::hooks().and_then(|h| h.now_nanos()) {
+                Some(n) => Instant::Sim(n),
+                None => Instant::Real(std::time::Instant::now()),
+            }
+        }
+        pub fn checked_duration_since(&self, earlier: Instant) -> Option<Duration> {
+            match (self, earlier) {
+                (Instant::Real(a), Instant::Real(b)) => a.checked_duration_since(b),
+                (Instant::Sim(a), Instant::Sim(b)) => a.checked_sub(b).map(Duration::from_nanos),
+                _ => None,
+            }
+        }
+        pub fn saturating_duration_since(&self, earlier: Instant) -> Duration {
+            self.checked_duration_since(earlier).unwrap_or_default()
+        }
+    }
+
+    impl std::ops::Add<Duration> for Instant {
+        type Output = Instant;
+        fn add(self, rhs: Duration) -> Instant {
+            match self {
+                Instant::Real(a) => Instant::Real(a + rhs),
+                Instant::Sim(a) => Instant::Sim(a + rhs.as_nanos() as u64),
+            }
+        }
+    }
+}
